@@ -172,7 +172,7 @@ fn wrong_fen(base: &Synth, kind: u8, a: u8, b: u8) -> Option<Vec<u8>> {
             // a second / third king
             let c = if a & 1 == 0 { C::White } else { C::Black };
             for i in 0..(1 + b % 2) {
-                let s = (0..64u8).map(|d| (a + d + i * 7) % 64).find(|&s| p.sq[s as usize].is_none())?;
+                let s = (0..64u8).map(|d| ((a as u32 + d as u32 + i as u32 * 7) % 64) as u8).find(|&s| p.sq[s as usize].is_none())?;
                 p.sq[s as usize] = Some((c, P::King));
             }
         }
@@ -207,7 +207,7 @@ fn wrong_fen(base: &Synth, kind: u8, a: u8, b: u8) -> Option<Vec<u8>> {
             let home = if i < 2 { 4u8 } else { 60 };
             if p.king(c) == Some(home) {
                 // move the king away
-                let s = (0..64u8).map(|d| (home + 9 + d) % 64).find(|&s| p.sq[s as usize].is_none())?;
+                let s = (0..64u8).map(|d| ((home as u32 + 9 + d as u32) % 64) as u8).find(|&s| p.sq[s as usize].is_none())?;
                 p.sq[home as usize] = None;
                 p.sq[s as usize] = Some((c, P::King));
             }
